@@ -26,10 +26,12 @@ def load_known(prop):
     return out
 
 
-def write_replay(prop, case, verdict):
+def write_replay(prop, case, verdict, prefix=None):
     os.makedirs(os.path.join(VERIF, "replays"), exist_ok=True)
     doc = {"property": prop, "case": case, "klass": verdict.get("klass"), "detail": verdict.get("detail"),
            "expected": verdict.get("expected"), "observed": verdict.get("observed"), "event_log_sha": verdict.get("log_sha")}
+    if prefix:
+        doc["worker_history"] = prefix  # {"indices", "master", "cfg"}: the runs one worker process executed, the last one being the case
     body = json.dumps(doc, indent=1, sort_keys=True, default=str)
     sha = hashlib.sha256(body.encode()).hexdigest()[:8]
     path = os.path.join(VERIF, "replays", f"{prop}-{case.get('seed', 0)}-{sha}.json")
@@ -38,7 +40,80 @@ def write_replay(prop, case, verdict):
     return path
 
 
-def report_violation(module, prop, res, cfg, shrink=True, log=print):
+def run_history(module, spec, cfg, groups, master, timeout):
+    """Fresh worker under `spec`; send one run command per group of indices (the same commands, in the same
+    order, that the original worker process received); return the result of the last index."""
+    wcfg = dict(cfg)
+    wcfg["env"] = spec
+    last = {}
+    try:
+        w = driver.WorkerProc(module, driver.env_for(spec), wcfg)
+    except driver.HarnessError as e:
+        return {"harness_error": str(e)}
+    try:
+        deadline = time.monotonic() + timeout
+        for g in groups:
+            if not g:
+                continue
+            for o in w.request({"cmd": "run", "indices": g, "master": master, "wall_per_run": cfg.get("wall_per_run")}, timeout=max(30.0, deadline - time.monotonic())):
+                if "harness_error" in o:
+                    return o
+                last = o
+    except driver.HarnessError as e:
+        return {"harness_error": str(e)}
+    finally:
+        w.close()
+    return last
+
+
+def replay_with_history(module, prop, res, cfg, master, log=print):
+    """The case alone did not reproduce in a fresh worker.  The run is a function of its seed only if nothing
+    but the documented caches (which the harness resets) survives from one call to the next; replay the whole
+    sequence of runs its worker process had executed, then minimise that sequence to a suffix."""
+    prefix = res.get("worker_prefix")
+    if not prefix or master is None:
+        return None
+    spec = res["case"].get("env", {})
+    want, klass, i = res.get("verdict", "violation"), res["klass"], res["i"]
+    per = float(cfg.get("history_wall_per_run", 20.0))
+    groups = [list(g) for g in prefix]
+    groups[-1] = groups[-1] + [i]  # the violating run ends the history (the rest of its command was never a cause)
+
+    def attempt(gs):
+        f = run_history(module, spec, cfg, gs, master, timeout=60 + per * sum(len(g) for g in gs))
+        return f, (f.get("i") == i and f.get("verdict") == want and f.get("klass") == klass)
+
+    f, ok = attempt(groups)
+    if not ok:
+        f, ok = attempt(groups)
+    if not ok:
+        return None
+    keep = groups
+    tries = 0
+    while len(keep) > 1 and tries < 8:  # bisect towards the shortest suffix of the history that still reproduces
+        half = keep[len(keep) // 2:]
+        tries += 1
+        f2, ok2 = attempt(half)
+        if ok2:
+            keep, f = half, f2
+        else:
+            break
+    f3, ok3 = attempt(keep)  # the file as written must reproduce
+    if not ok3:
+        keep = groups
+        f3, ok3 = attempt(keep)
+        if not ok3:
+            return None
+    n_before = sum(len(g) for g in keep) - 1
+    how = (f"reproduces when the {n_before} runs that the same interpreter executed before it are replayed first" if n_before
+           else "reproduces when the whole run is re-executed from its seed in a fresh interpreter")
+    f3["detail"] = (f"{f3.get('detail')} [the extracted case alone does not reproduce in a fresh interpreter; {how}: "
+                    "something other than the caches einx documents (or the address of a dead object) carries over from earlier calls]")
+    path = write_replay(prop, res["case"], f3, prefix={"groups": keep, "master": master, "cfg": cfg})
+    return path, f3
+
+
+def report_violation(module, prop, res, cfg, shrink=True, log=print, master=None):
     """Shrink the failing case in a fresh worker, write the replay file, replay it once in another
     fresh worker.  Returns (path, reproduced, final_result)."""
     case = res["case"]
@@ -75,6 +150,9 @@ def report_violation(module, prop, res, cfg, shrink=True, log=print):
                     final["detail"] = f"{final.get('detail')} [reproduced on replay attempt {attempt} of 3: the failure depends on a source of nondeterminism outside the simulator, e.g. object addresses]"
                 path = write_replay(prop, cand, final)
                 return path, True, final
+    got = replay_with_history(module, prop, res, cfg, master, log=log)
+    if got:
+        return got[0], True, got[1]
     path = write_replay(prop, res["case"], res)
     return path, False, final
 
@@ -150,7 +228,7 @@ def run(module, prop, tier, plan, describe, assumptions=()):
         if k in reported or len(reported) >= 3 or tried.get(k, 0) >= 3:
             continue
         tried[k] = tried.get(k, 0) + 1
-        path, ok, final = report_violation(module, prop, r, cfg)
+        path, ok, final = report_violation(module, prop, r, cfg, master=master)
         if ok:
             reported[k] = path
             flaky.pop(k, None)
@@ -204,8 +282,17 @@ def run(module, prop, tier, plan, describe, assumptions=()):
 def replay(module, prop, path, cfg):
     doc = json.load(open(path))
     case = doc["case"]
-    out = driver.one_shot(module, case.get("env", {}), cfg, {"cmd": "exec", "case": case}, timeout=600)
-    final = out[0] if out else {}
+    hist = doc.get("worker_history")
+    if hist:
+        import importlib
+
+        prep = getattr(importlib.import_module(module), "prepare_history_replay", None)
+        if prep:
+            prep(hist)
+        final = run_history(module, case.get("env", {}), hist["cfg"], hist["groups"], hist["master"], timeout=60 + 20.0 * sum(len(g) for g in hist["groups"]))
+    else:
+        out = driver.one_shot(module, case.get("env", {}), cfg, {"cmd": "exec", "case": case}, timeout=600)
+        final = out[0] if out else {}
     if "harness_error" in final:
         print(f"[{prop}] HARNESS-ERROR {final['harness_error']}\n{final.get('traceback', '')}")
         return 2
